@@ -916,6 +916,13 @@ class BosonicModes:
             if self.active[i] is None:
                 raise ValueError("Cannot apply measurement, mode does not exist")
 
+        # If all modes are measured there is nothing left to condition: set them to vacuum
+        # (as measure_dyne does)
+        if len(modes) == len(self.active):
+            for i in modes:
+                self.loss(0, i)
+            return
+
         expind = np.concatenate((2 * np.array(modes), 2 * np.array(modes) + 1))
         mp = self.get_covmat()
         A, B, C = ops.chop_in_blocks_multi(mp, expind)
